@@ -76,10 +76,6 @@ def specForm (inflate : Bytes → Option Bytes) (ref : Bytes) (typ msg loc rs ht
 def specUrl (loc : Bytes) (args : List (Bytes × Bytes)) (url : Bytes) : Bool :=
   parseQsl (queryOf url) == parseQsl (queryOf loc) ++ args
 
-/-- Side condition under which the current code delivers: no fragment, and either no `?` at all or
-    a non-empty query after it. -/
-def locOk (loc : Bytes) : Bool := !loc.contains 35 && (!loc.contains 63 || locQueryTruthy loc)
-
 def specRedirectDelivery (inflate : Bytes → Option Bytes) (payload msg : Bytes) : Bool :=
   unravelRedirect inflate payload == some msg
 
